@@ -8,7 +8,7 @@ From Interval Require Import Tactic.
 From PR Require Import Base.ZX Base.ListX Base.Slice Base.Num Base.RNum Model.Partition Model.Organise Model.ReduceMask
      Model.Sched
      Proofs.C19_partition Proofs.C19_raa Proofs.C03_org Proofs.C03_pipe Proofs.C03_refuted Proofs.C03_sphere Proofs.C03_compose Proofs.C03_history
-     Gen.GenC03 Proofs.C03_gen.
+     Gen.GenC03 Proofs.C03_gen Base.Imp Model.OrganiseImp Gen.GenC19 Gen.GenC03imp Proofs.C03_imp.
 From PR Require Model.KDTree.
 Import ListNotations.
 Local Close Scope Z_scope.
@@ -38,6 +38,64 @@ Theorem C03_segments_pipeline : forall (src tgt D : Type) (dist : tgt -> src -> 
   = (map Some (voi i), map Some (nrows i)).
 Proof. intros. rewrite segments_invariant. reflexivity. Qed.
 Print Assumptions C03_segments_pipeline.
+
+(* ---- segments, on the TRANSLATED code: kd_tree.get_neighbour_info itself (Gen/GenC03imp.v, regenerated from /repo on
+   every run by tools/py2coq_imp.py; its loop iterates what the translated generator geometry._get_slice yields and runs
+   the translated RowAppendableArray.append_row / to_array of Gen/GenC19.v) returns, for EVERY value of the segments argument
+   (None, <= 1, 2.., more than rows), the arrays of its single full-slice query - when the kd-tree query is a per-row
+   oracle: Hseg / Hfull say that the query on a row slice returns the rows fv / fi / fd of the pixels of that slice
+   (fi, fd only for the pixels with valid = true), and on slice(None) those of all pixels.  The geometry objects, radius,
+   epsilon, tree, and the callees _get_valid_input_index / _create_resample_kdtree / _query_resample_kdtree /
+   _create_empty_info are abstract (pattern-trusted readings: tools/gen_specs/GenC03imp.json "note"). *)
+Theorem C03_get_neighbour_info_code_segments_independent :
+  forall (A SRC TGT RAD EPS TREE VII LL P : Type) src_size tgt_size tgt_shape
+         (get_vii : SRC -> TGT -> bool -> RAD -> Z -> VII * LL * LL) tree_ok (mk_tree : LL -> LL -> VII -> Z -> TREE)
+         empty_info query_seg query_full all_inf nd tree0 vii0 ll0
+         (g : list (list P)) (valid : P -> bool) (fv fi fd : P -> A) src tgt rad k (eps : EPS) red np rest,
+  let V := get_vii src tgt red rad np in
+  let tree := mk_tree (snd (fst V)) (snd V) (fst (fst V)) np in
+  tgt_shape tgt = Z.of_nat (length g) :: rest -> length rest <= 1 -> g <> [] -> (0 <= tgt_size tgt)%Z ->
+  (forall sl, query_seg tree src tgt rad (wrap rest sl) k eps red np = q3 valid fv fi fd (rows_of sl g)) ->
+  query_full tree src tgt rad (mk_oslice None None) k eps red np = q3 valid fv fi fd (concat g) ->
+  forall segments, tree_ok (snd (fst V)) (snd V) (fst (fst V)) np = true ->
+  value_of (imp_get_neighbour_info src_size tgt_size tgt_shape get_vii tree_ok mk_tree empty_info query_seg query_full all_inf nd
+                                   tree0 vii0 ll0 src tgt rad k eps red np segments)
+  = COk (fst (fst V), fst (fst (q3 valid fv fi fd (concat g))), snd (fst (q3 valid fv fi fd (concat g))), snd (q3 valid fv fi fd (concat g))).
+Proof.
+  intros A SRC TGT RAD EPS TREE VII LL P src_size tgt_size tgt_shape get_vii tree_ok mk_tree empty_info query_seg query_full all_inf nd
+         tree0 vii0 ll0 g valid fv fi fd src tgt rad k eps red np rest V tree Hs Hr Hg Hz Hq Hf segments Hok.
+  exact (gni_segments_independent src_size tgt_size tgt_shape get_vii tree_ok mk_tree empty_info query_seg query_full all_inf nd
+           tree0 vii0 ll0 g valid fv fi fd src tgt rad k eps red np rest Hs Hr Hg Hz Hq Hf segments Hok).
+Qed.
+Print Assumptions C03_get_neighbour_info_code_segments_independent.
+(* ... and when every source is reduced away (EmptyResult) it returns _create_empty_info's arrays for every segments value *)
+Theorem C03_get_neighbour_info_code_empty :
+  forall (A SRC TGT RAD EPS TREE VII LL : Type) src_size tgt_size tgt_shape
+         (get_vii : SRC -> TGT -> bool -> RAD -> Z -> VII * LL * LL) tree_ok (mk_tree : LL -> LL -> VII -> Z -> TREE)
+         (empty_info : SRC -> TGT -> Z -> list (option A) * list (option A) * list (option A)) query_seg query_full all_inf nd tree0 vii0 ll0
+         src tgt rad k (eps : EPS) red np segments,
+  let V := get_vii src tgt red rad np in
+  tree_ok (snd (fst V)) (snd V) (fst (fst V)) np = false ->
+  value_of (imp_get_neighbour_info src_size tgt_size tgt_shape get_vii tree_ok mk_tree empty_info query_seg query_full all_inf nd
+                                   tree0 vii0 ll0 src tgt rad k eps red np segments)
+  = COk (fst (fst V), fst (fst (empty_info src tgt k)), snd (fst (empty_info src tgt k)), snd (empty_info src tgt k)).
+Proof.
+  intros A SRC TGT RAD EPS TREE VII LL src_size tgt_size tgt_shape get_vii tree_ok mk_tree empty_info query_seg query_full all_inf nd
+         tree0 vii0 ll0 src tgt rad k eps red np segments V Hok.
+  exact (gni_empty_segments_independent src_size tgt_size tgt_shape get_vii tree_ok mk_tree empty_info query_seg query_full all_inf nd
+           tree0 vii0 ll0 src tgt rad k eps red np segments Hok).
+Qed.
+Print Assumptions C03_get_neighbour_info_code_empty.
+(* the translated function run on a concrete instance: 3 x 2 pixels, pixel 1 and 4 not queried, 2 segments of rows *)
+Example C03_get_neighbour_info_code_ex :
+  let qs := fun (_ : unit) (_ _ _ : unit) (sl : pslice + pslice * oslice) (_ : Z) (_ : unit) (_ : bool) (_ : Z) =>
+              q3 (fun p : Z => negb (p mod 3 =? 1)%Z) (fun p => p) (fun p => (10 * p)%Z) (fun p => (100 * p)%Z)
+                 (rows_of (match sl with inl s => s | inr (s, _) => s end) [[0; 1]; [2; 3]; [4; 5]]%Z) in
+  value_of (imp_get_neighbour_info (fun _ : unit => 9%Z) (fun _ : unit => 6%Z) (fun _ => [3; 2]%Z) (fun _ _ _ (_ : unit) _ => (tt, tt, tt))
+              (fun _ _ _ _ => true) (fun _ _ _ _ => tt) (fun _ _ _ => ([], [], [])) qs (fun _ _ _ _ _ _ _ _ _ => ([], [], [])) (fun _ => true) 1%Z
+              tt tt tt tt tt tt 1%Z tt true 1%Z (Some 2%Z))
+  = COk (tt, map Some [0; 1; 2; 3; 4; 5]%Z, map Some [0; 20; 30; 50]%Z, map Some [0; 200; 300; 500]%Z).
+Proof. vm_compute. reflexivity. Qed.
 
 (* ---- history on the target object: after get_lonlats(cache=True) every segment reads its rows from the stored grid
    instead of computing them; for ONE pointwise coordinate function both give the same rows, so the segmented query sees the
